@@ -142,6 +142,12 @@ theorem persist_err (s : St) (mask n : Nat) (h : (persist s mask n).res ≠ .ok)
     · simp [hj, hf] at h
   · simp [hj]
 
+theorem persist_defaults (s : St) (mask n : Nat) : (persist s mask n).st.defaults = s.defaults := by
+  unfold persist
+  split
+  · rfl
+  · split <;> rfl
+
 /-- what every setter's outcome looks like -/
 structure Outcome (s : St) (o : Out) : Prop where
   rejected : o.res ≠ .ok → o.st.served = s.served
@@ -291,17 +297,28 @@ theorem setRMode_spec (s : St) (c : RMode) (mask : Nat) :
       refine ⟨⟨fun _ => rfl, fun hr => absurd hr hp, fun hr => absurd hr hp, ?_⟩, fun hr => absurd hr hp⟩
       rw [persist_err _ mask 0 hp]
 
+/-- the default-scheduler list is a constant of the state -/
+theorem step_defaults (s : St) (op : Op) : (step s op).st.defaults = s.defaults := by
+  cases op <;>
+    simp only [step, setSched, setRepl, setPd, setLabels, setVersion, setRMode, swapPersist, foreignWrite, reloadSame] <;>
+    (repeat' split) <;> simp [persist_defaults]
+
 /-- everything `Props/C18.lean` needs about one step -/
 structure StepSpec (s : St) (op : Op) : Prop where
   rejected : (step s op).res ≠ .ok → (step s op).st.served = s.served
-  stored : (step s op).res = .ok → (step s op).st.stored = some (step s op).st.served
+  stored : op.isSetter = true → (step s op).res = .ok → (step s op).st.stored = some (step s op).st.served
   registered : (step s op).st.registered = s.registered
+  /-- another member's write leaves what this member serves alone -/
+  foreignKept : ∀ x, op = .foreign x → (step s op).st.served = s.served
+  /-- a reload succeeds, leaves the storage alone and serves its (normalised) content -/
+  reloadIs : op = .reload → (step s op).res = .ok ∧ (step s op).st.stored = s.stored ∧
+    ∀ c, s.stored = some c → (step s op).st.served = normalise s.defaults c
   domain : (step s op).res = .ok →
     (kindOf op = .sched → schedDomain s.registered (step s op).st.served.sched = true) ∧
     (kindOf op = .repl → replDomain (step s op).st.served.repl = true) ∧
     (kindOf op = .pd → pdDomain (step s op).st.served.pd = true)
   schedIs : (step s op).res = .ok → ∀ c mask, op = .sched c mask → (step s op).st.served.sched = c
-  domainKept : (schedDomain s.registered s.served.sched = true ∧ replDomain s.served.repl = true ∧
+  domainKept : op.isSetter = true → (schedDomain s.registered s.served.sched = true ∧ replDomain s.served.repl = true ∧
       pdDomain s.served.pd = true) →
     (schedDomain s.registered (step s op).st.served.sched = true ∧ replDomain (step s op).st.served.repl = true ∧
       pdDomain (step s op).st.served.pd = true)
@@ -311,10 +328,13 @@ structure StepSpec (s : St) (op : Op) : Prop where
 theorem spec_of_same (s : St) (op : Op) (o : Out) (he : step s op = o) (ho : Outcome s o)
     (hs : o.res = .ok → sameThree s.served o.st.served)
     (hk1 : kindOf op ≠ .sched) (hk2 : kindOf op ≠ .repl) (hk3 : kindOf op ≠ .pd)
-    (hns : ∀ c mask, op ≠ .sched c mask) : StepSpec s op := by
+    (hns : ∀ c mask, op ≠ .sched c mask)
+    (hnf : ∀ x, op = .foreign x → (step s op).st.served = s.served)
+    (hnr : op = .reload → (step s op).res = .ok ∧ (step s op).st.stored = s.stored ∧
+      ∀ c, s.stored = some c → (step s op).st.served = normalise s.defaults c) : StepSpec s op := by
   subst he
-  refine ⟨ho.rejected, ho.stored, ho.registered, fun _ => ⟨fun h => absurd h hk1, fun h => absurd h hk2, fun h => absurd h hk3⟩,
-    fun _ c m hc => absurd hc (hns c m), fun h => ?_⟩
+  refine ⟨ho.rejected, fun _ => ho.stored, ho.registered, hnf, hnr, fun _ => ⟨fun h => absurd h hk1, fun h => absurd h hk2, fun h => absurd h hk3⟩,
+    fun _ c m hc => absurd hc (hns c m), fun _ h => ?_⟩
   by_cases hok : (step s op).res = .ok
   · obtain ⟨h1, h2, h3⟩ := hs hok
     rw [h1, h2, h3]; exact h
@@ -325,8 +345,9 @@ theorem step_spec (s : St) (op : Op) : StepSpec s op := by
   | sched c mask =>
     obtain ⟨ho, hd⟩ := setSched_spec s c mask
     show StepSpec s (.sched c mask)
-    refine ⟨ho.rejected, ho.stored, ho.registered, fun hok => ⟨fun _ => ?_, (fun h => nomatch h), (fun h => nomatch h)⟩,
-      fun hok c' m' he => ?_, fun h => ?_⟩
+    refine ⟨ho.rejected, fun _ => ho.stored, ho.registered, (fun _ h => nomatch h), (fun h => nomatch h),
+      fun hok => ⟨fun _ => ?_, (fun h => nomatch h), (fun h => nomatch h)⟩,
+      fun hok c' m' he => ?_, fun _ h => ?_⟩
     · show schedDomain s.registered (setSched s c mask).st.served.sched = true
       rw [(hd hok).1]; exact (hd hok).2
     · cases he; show (setSched s c mask).st.served.sched = c; rw [(hd hok).1]
@@ -337,8 +358,9 @@ theorem step_spec (s : St) (op : Op) : StepSpec s op := by
       · rw [ho.rejected hok]; exact h
   | repl c mask =>
     obtain ⟨ho, hd⟩ := setRepl_spec s c mask
-    refine ⟨ho.rejected, ho.stored, ho.registered, fun hok => ⟨(fun h => nomatch h), fun _ => (hd hok).2, (fun h => nomatch h)⟩,
-      (fun _ c' m' he => nomatch he), fun h => ?_⟩
+    refine ⟨ho.rejected, fun _ => ho.stored, ho.registered, (fun _ h => nomatch h), (fun h => nomatch h),
+      fun hok => ⟨(fun h => nomatch h), fun _ => (hd hok).2, (fun h => nomatch h)⟩,
+      (fun _ c' m' he => nomatch he), fun _ h => ?_⟩
     show schedDomain s.registered (setRepl s c mask).st.served.sched = true ∧
       replDomain (setRepl s c mask).st.served.repl = true ∧ pdDomain (setRepl s c mask).st.served.pd = true
     by_cases hok : (setRepl s c mask).res = .ok
@@ -347,8 +369,9 @@ theorem step_spec (s : St) (op : Op) : StepSpec s op := by
     · rw [ho.rejected hok]; exact h
   | pd c mask =>
     obtain ⟨ho, hd⟩ := setPd_spec s c mask
-    refine ⟨ho.rejected, ho.stored, ho.registered, fun hok => ⟨(fun h => nomatch h), (fun h => nomatch h), fun _ => (hd hok).2⟩,
-      (fun _ c' m' he => nomatch he), fun h => ?_⟩
+    refine ⟨ho.rejected, fun _ => ho.stored, ho.registered, (fun _ h => nomatch h), (fun h => nomatch h),
+      fun hok => ⟨(fun h => nomatch h), (fun h => nomatch h), fun _ => (hd hok).2⟩,
+      (fun _ c' m' he => nomatch he), fun _ h => ?_⟩
     show schedDomain s.registered (setPd s c mask).st.served.sched = true ∧
       replDomain (setPd s c mask).st.served.repl = true ∧ pdDomain (setPd s c mask).st.served.pd = true
     by_cases hok : (setPd s c mask).res = .ok
@@ -357,18 +380,42 @@ theorem step_spec (s : St) (op : Op) : StepSpec s op := by
     · rw [ho.rejected hok]; exact h
   | lpset t k v mask =>
     obtain ⟨ho, hd⟩ := setLabels_spec s (lpSet s.served.labels t k v) mask
-    exact spec_of_same s _ _ rfl ho hd (by simp [kindOf]) (by simp [kindOf]) (by simp [kindOf]) (fun _ _ h => nomatch h)
+    exact spec_of_same s _ _ rfl ho hd (by simp [kindOf]) (by simp [kindOf]) (by simp [kindOf]) (fun _ _ h => nomatch h) (fun _ h => nomatch h) (fun h => nomatch h)
   | lpdel t k v mask =>
     obtain ⟨ho, hd⟩ := setLabels_spec s (lpDel s.served.labels t k v) mask
-    exact spec_of_same s _ _ rfl ho hd (by simp [kindOf]) (by simp [kindOf]) (by simp [kindOf]) (fun _ _ h => nomatch h)
+    exact spec_of_same s _ _ rfl ho hd (by simp [kindOf]) (by simp [kindOf]) (by simp [kindOf]) (fun _ _ h => nomatch h) (fun _ h => nomatch h) (fun h => nomatch h)
   | lpcfg m mask =>
     obtain ⟨ho, hd⟩ := setLabels_spec s m mask
-    exact spec_of_same s _ _ rfl ho hd (by simp [kindOf]) (by simp [kindOf]) (by simp [kindOf]) (fun _ _ h => nomatch h)
+    exact spec_of_same s _ _ rfl ho hd (by simp [kindOf]) (by simp [kindOf]) (by simp [kindOf]) (fun _ _ h => nomatch h) (fun _ h => nomatch h) (fun h => nomatch h)
   | cver v mask =>
     obtain ⟨ho, hd⟩ := setVersion_spec s v mask
-    exact spec_of_same s _ _ rfl ho hd (by simp [kindOf]) (by simp [kindOf]) (by simp [kindOf]) (fun _ _ h => nomatch h)
+    exact spec_of_same s _ _ rfl ho hd (by simp [kindOf]) (by simp [kindOf]) (by simp [kindOf]) (fun _ _ h => nomatch h) (fun _ h => nomatch h) (fun h => nomatch h)
   | rmode c mask =>
     obtain ⟨ho, hd⟩ := setRMode_spec s c mask
-    exact spec_of_same s _ _ rfl ho hd (by simp [kindOf]) (by simp [kindOf]) (by simp [kindOf]) (fun _ _ h => nomatch h)
+    exact spec_of_same s _ _ rfl ho hd (by simp [kindOf]) (by simp [kindOf]) (by simp [kindOf]) (fun _ _ h => nomatch h) (fun _ h => nomatch h) (fun h => nomatch h)
+  | foreign x =>
+    have hserved : (step s (.foreign x)).st.served = s.served := by
+      simp only [step, foreignWrite]; repeat' split
+      all_goals rfl
+    have hreg : (step s (.foreign x)).st.registered = s.registered := by
+      simp only [step, foreignWrite]; repeat' split
+      all_goals rfl
+    exact ⟨fun _ => hserved, (fun h => nomatch h), hreg, fun _ _ => hserved, (fun h => nomatch h),
+      fun _ => ⟨(fun h => nomatch h), (fun h => nomatch h), (fun h => nomatch h)⟩,
+      (fun _ _ _ h => nomatch h), (fun h => nomatch h)⟩
+  | reload =>
+    have hres : (step s .reload).res = .ok := by
+      simp only [step, reloadSame]; split <;> rfl
+    have hstored : (step s .reload).st.stored = s.stored := by
+      simp only [step, reloadSame]; split <;> rfl
+    have hreg : (step s .reload).st.registered = s.registered := by
+      simp only [step, reloadSame]; split <;> rfl
+    have hserved : ∀ c, s.stored = some c → (step s .reload).st.served = normalise s.defaults c := by
+      intro c hc
+      simp only [step, reloadSame, hc]
+    exact ⟨fun h => absurd hres h, (fun h => nomatch h), hreg, (fun _ h => nomatch h),
+      fun _ => ⟨hres, hstored, hserved⟩,
+      fun _ => ⟨(fun h => nomatch h), (fun h => nomatch h), (fun h => nomatch h)⟩,
+      (fun _ _ _ h => nomatch h), (fun h => nomatch h)⟩
 
 end PdModel.Config
